@@ -67,7 +67,7 @@ theorem step_sym (inp : List Nat) (hinp : WF inp) (w w' : BitWindow) (x : Nat)
     · rw [hd, hc]; exact ht
   | short q =>
     rw [hw] at hb
-    obtain ⟨h1, h2⟩ := hb
+    obtain ⟨h1, h2, _⟩ := hb
     cases hq : eofOK q
     · obtain ⟨_, h⟩ := h2 hq; simp at h
     · have := h1 hq; simp at this
@@ -124,13 +124,60 @@ theorem decodeAll_succ (fuel : Nat) (w : BitWindow) (inp : List Nat) :
         match decodeAll root fuel w' inp with
         | .ok (r, lax) => .ok (s :: r, lax)
         | .error e => .error e
-      | (_, .done) => .ok ([], !padOK inp w.endPos)
+      | (w', .done) => .ok ([], laxAt inp w.endPos w')
       | (_, .err e) => .error e := by
   rw [decodeAll]
   rcases decodeNext root w inp with ⟨w', st⟩
   cases st <;> rfl
 
 theorem padOK_eq (inp : List Nat) (pos : Nat) : padOK inp pos = validPad ((bitsOf inp).drop pos) := rfl
+
+/-- on an accepting run the flag computed from `check_eof`'s window is "the bits behind the last complete symbol
+    are not a valid padding" -/
+theorem laxAt_eq (inp : List Nat) (hinp : WF inp) (w w' : BitWindow) (hpos : w.endPos ≤ 8 * inp.length)
+    (h : decodeNext root w inp = (w', .done)) : laxAt inp w.endPos w' = !padOK inp w.endPos := by
+  have hb := bridgeL inp hinp root w hpos
+  rw [h] at hb
+  cases hw : walkL root ((bitsOf inp).drop w.endPos) with
+  | sym s rest => rw [hw] at hb; obtain ⟨h1, _⟩ := hb; simp at h1
+  | unhandled => rw [hw] at hb; obtain ⟨_, _, h1⟩ := hb; simp at h1
+  | short q =>
+    rw [hw] at hb
+    obtain ⟨_, h2, h3⟩ := hb
+    simp only at h2 h3
+    have hq : eofOK q = true := by
+      cases hq : eofOK q
+      · obtain ⟨_, h'⟩ := h2 hq; simp at h'
+      · rfl
+    obtain ⟨c, hc⟩ := walkL_short_suffix root _ q hw
+    have hlen : ((bitsOf inp).drop w.endPos).length = 8 * inp.length - w.endPos := by simp
+    have hcl : c.length = 8 * w'.byte + w'.bit - w.endPos := by
+      have := congrArg List.length hc
+      rw [hlen, List.length_append] at this; omega
+    have hql : q.length = 8 * inp.length - (8 * w'.byte + w'.bit) := by omega
+    have hqones : q.all (· == true) = true := by
+      simp only [eofOK, Bool.or_eq_true, Bool.and_eq_true, List.isEmpty_iff] at hq
+      rcases hq with rfl | ⟨_, h⟩
+      · rfl
+      · exact h
+    unfold laxAt
+    simp only []
+    rw [padOK_eq, hc, ← hcl, List.take_left' rfl, ← hql, validPad, List.length_append, List.all_append, hqones,
+      Bool.and_true]
+    cases hall : c.all (· == true)
+    · rw [List.all_eq_false] at hall
+      obtain ⟨x, hx, hne⟩ := hall
+      have hx' : false ∈ c := by cases x <;> simp_all
+      simp [hx']
+    · have : c.any (· == false) = false := by
+        rw [List.any_eq_false]
+        intro x hx
+        have := List.all_eq_true.mp hall x hx
+        cases x <;> simp_all
+      rw [this]
+      by_cases h7 : c.length + q.length ≤ 7
+      · simp [h7] <;> omega
+      · simp [h7] <;> omega
 
 theorem decodeAll_sound (inp : List Nat) (hinp : WF inp) : ∀ (fuel : Nat) (w : BitWindow)
     (s : List Nat) (lax : Bool), w.endPos ≤ 8 * inp.length →
@@ -165,7 +212,8 @@ theorem decodeAll_sound (inp : List Nat) (hinp : WF inp) : ∀ (fuel : Nat) (w :
     | done =>
       simp only [Except.ok.injEq, Prod.mk.injEq] at h
       obtain ⟨rfl, rfl⟩ := h
-      exact ⟨by simp, (bitsOf inp).drop w.endPos, by simp [enc], by rw [padOK_eq]⟩
+      exact ⟨by simp, (bitsOf inp).drop w.endPos, by simp [enc],
+        by rw [laxAt_eq inp hinp w w' hpos hres, padOK_eq]⟩
     | err e => simp at h
 
 theorem decodeAll_complete (inp : List Nat) (hinp : WF inp) : ∀ (s : List Nat) (fuel : Nat)
@@ -184,7 +232,7 @@ theorem decodeAll_complete (inp : List Nat) (hinp : WF inp) : ∀ (s : List Nat)
     rw [hres] at hdone
     simp only at hdone
     subst hdone
-    simp only [padOK_eq, hd, hp, Bool.not_true]
+    simp only [laxAt_eq inp hinp w w' hpos hres, padOK_eq, hd, hp, Bool.not_true]
   | cons x s ih =>
     intro fuel w pad hpos hs hf hd hp
     obtain ⟨f, rfl⟩ : ∃ f, fuel = f + 1 := ⟨fuel - 1, by simp at hf; omega⟩
@@ -224,7 +272,7 @@ theorem decodeAll_fuel (inp : List Nat) (hinp : WF inp) : ∀ (fuel : Nat) (w : 
       | sym s rest => rw [hw] at hb; obtain ⟨h1, _⟩ := hb; simp at h1
       | short q =>
         rw [hw] at hb
-        obtain ⟨h1, h2⟩ := hb
+        obtain ⟨h1, h2, _⟩ := hb
         cases hq : eofOK q
         · obtain ⟨_, h⟩ := h2 hq; simp at h
         · have := h1 hq; simp at this
